@@ -655,7 +655,12 @@ class Array(metaclass=MetaArray):
                 fits = len(self) == ll
         else:
             ll = len(value)
-            shape = get_shape_from_array(value, len(self._shape))
+            nd = len(self._shape)
+            if hasattr(self._itemtype, "_dtype"):
+                # items are numbers: a value nested deeper than the array has
+                # axes does not fit (it would be written in full)
+                nd += 1
+            shape = get_shape_from_array(value, nd)
             fits = tuple(shape) == tuple(self._shape)
         if fits and not (self._is_static_type or is_integer(value)):
             # items of dynamic size keep the place and space they got at
